@@ -75,6 +75,8 @@ func (w *World) can(tr string) bool {
 		return w.seed != nil && w.seed.mode != f[1]
 	case "ev", "drain":
 		return len(w.t.Event) > 0
+	case "stuff":
+		return w.cfg.Gates && ai(1) < len(w.remotes) && w.remotes[ai(1)].gated && !w.remotes[ai(1)].exited() && len(w.remotes[ai(1)].p.Event) < cap(w.remotes[ai(1)].p.Event)
 	case "gate", "ungate", "pstep":
 		if !w.cfg.Gates || ai(1) >= len(w.remotes) {
 			return false
